@@ -30,6 +30,7 @@ from ural.quote import (
     safely_quote,
     safely_quote_qsl,
     upper_quoted,
+    quote_lone_percents,
 )
 from ural.patterns import PROTOCOL_RE, CONTROL_CHARS_RE
 from ural.facebook import is_facebook_url, parse_facebook_url
@@ -253,6 +254,7 @@ def normalize_url(
     url = CONTROL_CHARS_RE.sub("", url)
     url = url.strip()
     url = upper_quoted(url)
+    url = quote_lone_percents(url)
 
     has_protocol = PROTOCOL_RE.match(url)
 
